@@ -69,7 +69,7 @@ def catalogue():
                 if mm:
                     name, expr = mm.group(1), mm.group(2)
                     bound = None
-                    b = re.search(r"_b(\d+)$", name)
+                    b = re.search(r"_b(\d+)(_t)?$", name)
                     if b:
                         bound = int(b.group(1))
                     cat[name] = {
